@@ -670,4 +670,13 @@ def _campaign(mod, prop, args, seed, t0):
 
 
 if __name__ == '__main__':
-    sys.exit(main())
+    # scratch directory shared by the worker processes of this run (worker exit does not run atexit handlers)
+    import tempfile
+    import shutil
+    _scratch = tempfile.mkdtemp(prefix='verif_run_')
+    os.environ['VERIF_SCRATCH'] = _scratch
+    try:
+        _rc = main()
+    finally:
+        shutil.rmtree(_scratch, ignore_errors=True)
+    sys.exit(_rc)
